@@ -38,6 +38,7 @@ func checkC11(p *Prog, r *Report) {
 	r.rule("C11.D6", "both read loops of dialled sessions reach packetInput only after learning the first source or after the source matched; a mismatch continues with the next datagram; sameUDPAddr compares IP, port and zone", 3)
 	r.rule("C11.D9", "traffic from one address never stalls the others: nothing blocks while a session mutex is held (= C02.A7) — the listener's single receive goroutine takes that mutex for every datagram of the session", 1)
 	r.rule("C11.D8", "one session cannot stall the others: no lock-order cycle between a session's mutex and the listener's table lock (= C13.W12) — the blocked goroutine would be the listener's only receive loop, so every session on the socket goes deaf", 1)
+	r.rule("C11.D10", "a socket is declared dead only by the socket: the error handed to notifyReadError comes from a variable that is assigned by the read call alone (ReadFrom / ReadBatch) — no property of a datagram (its length, its source, its contents) is turned into a read error, which would close every session of the listener", 4)
 	r.rule("C11.D7", "UDPSession.Close removes the session from its listener (closeSession(s.remote)) on the first close; Listener.packetInput has a single caller chain (the monitor goroutine)", 2)
 
 	checkLockOrder(p, r, "C11.D8")
@@ -670,6 +671,9 @@ func checkC11(p *Prog, r *Report) {
 		}
 	}
 
+	// ---- D10
+	checkReadErrorOnlyFromSocket(p, r)
+
 	// ---- D7
 	cl := p.FuncByName("(*UDPSession).Close")
 	cc := p.CFG(cl)
@@ -858,4 +862,77 @@ func assignedTrue(p *Prog, fi *FuncInfo, v *types.Var) bool {
 		return true
 	})
 	return hit
+}
+
+// checkReadErrorOnlyFromSocket: C11.D10.
+func checkReadErrorOnlyFromSocket(p *Prog, r *Report) {
+	n := 0
+	for _, tn := range []string{"UDPSession", "Listener"} {
+		m := p.TryMethod(tn, "notifyReadError")
+		if m == nil {
+			continue
+		}
+		for _, s := range p.CallsTo(m) {
+			root := rootFuncInfo(s.Fn)
+			// the listener's own fan-out hands the same error on to its sessions
+			if root.Obj != nil && root.Obj.Name() == "notifyReadError" {
+				continue
+			}
+			n++
+			construct := "error handed to notifyReadError in " + s.Fn.Name
+			var vars []*types.Var
+			ast.Inspect(s.Call.Args[0], func(x ast.Node) bool {
+				if id, ok := x.(*ast.Ident); ok {
+					if v, ok := p.Info.Uses[id].(*types.Var); ok && !v.IsField() && v.Pkg() == p.Types && v.Parent() != p.Types.Scope() {
+						vars = append(vars, v)
+					}
+				}
+				return true
+			})
+			if len(vars) == 0 {
+				r.bad("C11.D10", s.Fn.Name, p.Pos(s.Call), construct, "the read error is not a variable: a made-up error declares the socket dead", "")
+				continue
+			}
+			bad := ""
+			for _, v := range vars {
+				as := p.Assignments(root, v)
+				if len(as) == 0 && !p.isParam(v) {
+					bad = v.Name() + " is never assigned"
+				}
+				if p.isParam(v) {
+					bad = v.Name() + " is a parameter"
+				}
+				for _, a := range as {
+					asg, isAs := a.Node.(*ast.AssignStmt)
+					okA := false
+					if isAs && len(asg.Rhs) == 1 {
+						if call, isC := ast.Unparen(asg.Rhs[0]).(*ast.CallExpr); isC {
+							if f := p.Callee(call); f != nil && strings.HasPrefix(f.Name(), "Read") {
+								// a read of the socket: a function of another package, or a method of an interface (the
+								// package's own batchConn wraps x/net's ReadBatch)
+								isIface := false
+								if sig, ok := f.Type().(*types.Signature); ok && sig.Recv() != nil {
+									isIface = types.IsInterface(sig.Recv().Type())
+								}
+								if f.Pkg() == nil || f.Pkg() != p.Types || isIface {
+									okA = true
+								}
+							}
+						}
+					}
+					if !okA {
+						bad = v.Name() + " is also assigned at " + p.Pos(a.Node) + " by something other than the read call"
+					}
+				}
+			}
+			if bad != "" {
+				r.bad("C11.D10", s.Fn.Name, p.Pos(s.Call), construct, bad+": a datagram (from any address) can make the loop report a dead socket, which closes the session — for a listener, every session — and stops accepting", "")
+			} else {
+				r.ok("C11.D10", s.Fn.Name, p.Pos(s.Call), construct, "assigned only by the read call")
+			}
+		}
+	}
+	if n == 0 {
+		r.bad("C11.D10", "read loops", "-", "notifyReadError call sites", "no call site found", "")
+	}
 }
